@@ -138,6 +138,12 @@ impl Scenario for Codec {
             // exactly one input above 16 MiB per batch, through the one-shot helpers
             return to_value(&CodecCase { data: DataSpec { kind: 3, seed: 77, len: (17 << 20) + 1 }, ic: *rng.pick(&[1u8, 2, 4]), path: 0, chunks: Xfer::Full, pol: Policy::plain(), upstream_input: false, pycheck: false, mid_flush: 0, poison: 0 });
         }
+        if run == 3 || (run == 4 && tier == Tier::Thorough) {
+            // one input just above 2^28 bytes through zstd (one-shot; thorough adds 2^30 + a
+            // little): highly compressible, so the cost is a few passes over the bytes
+            let len = if run == 3 { (1u32 << 28) + 1 + rng.below(20_000) as u32 } else { (1u32 << 30) + 1 + rng.below(20_000) as u32 };
+            return to_value(&CodecCase { data: DataSpec { kind: 7, seed: 79, len }, ic: 4, path: 0, chunks: Xfer::Full, pol: Policy::plain(), upstream_input: false, pycheck: false, mid_flush: 0, poison: 0 });
+        }
         if run == 1 || (run == 2 && tier == Tier::Thorough) {
             // one input just above 2^27 bytes (128 MiB: the largest window a zstd decoder accepts
             // by default) through the one-shot helpers; thorough adds gzip
